@@ -337,6 +337,48 @@ benign("b-parser-fold-to-for",
        (EP, "                let (mut pairs, last_state) = target.char_indices().fold(\n                    (vec![], State::NameBegin),\n                    |(mut pairs, mut state), (pos, current_char)| {\n", "                let mut pairs = vec![];\n                let mut state = State::NameBegin;\n                for (pos, current_char) in target.char_indices() {\n                    {\n"),
        (EP, "                        (pairs, state)\n                    },\n                );\n", "                    }\n                }\n                let last_state = state;\n"))
 
+# ---------------------------------------------------------------- behaviour-preserving refactorings by independent sub-agents
+# (/verif/refactors/<id>/patch.diff, DESIGN.md section 11): each must leave every check silent ...
+RF = os.path.join(os.path.dirname(os.path.dirname(os.path.abspath(__file__))), "refactors")
+for d in sorted(os.listdir(RF)):
+    if os.path.exists(os.path.join(RF, d, "patch.diff")):
+        C.append({"id": "rf-" + d, "kind": "benign", "patch": "refactors/%s/patch.diff" % d, "edits": []})
+
+
+# ... and a defect seeded into the *refactored* form must still be reported (the widened idiom recognition is not vacuous)
+def rmut(id, rf, prop, expect, *edits):
+    C.append({"id": id, "kind": "mutant", "property": prop, "expect": expect, "patch": "refactors/%s/patch.diff" % rf,
+              "edits": [dict(file=f, find=a, replace=b) for f, a, b in edits]})
+
+
+rmut("rf-lst-3+prev-skips-byte0", "lst-3", "C12", "C12.R3", (LB, "for cursor in (0..byte_pos).rev()", "for cursor in (1..byte_pos).rev()"))
+rmut("rf-lst-3+prev-skips-byte0-c16", "lst-3", "C16", "C16.R3", (LB, "for cursor in (0..byte_pos).rev()", "for cursor in (1..byte_pos).rev()"))
+rmut("rf-lst-3+no-pause", "lst-3", "C02", "C02.R4", (LB, "    for cursor in byte_pos..bytes.len() {\n        match check(content, bytes, &cursor) {\n            CheckResult::Found => return Some(cursor),\n            CheckResult::None if pause_on_char => return None,\n", "    for cursor in byte_pos..bytes.len() {\n        match check(content, bytes, &cursor) {\n            CheckResult::Found => return Some(cursor),\n"))
+rmut("rf-fmt-3+insert-off-by-one", "fmt-3", "C01", "C01.OB", (FM, ".map_or(0, |idx| idx + 1);", ".map_or(0, |idx| idx + 2);"))
+rmut("rf-fmt-4+end-unclamped", "fmt-4", "C02", "C02.R6b", (BI, "let end = std::cmp::min(start + indent_len, indent_end);", "let end = start + indent_len;"))
+rmut("rf-fmt-4+first-line-plus-two", "fmt-4", "C02", "C02.R6b", (BI, "let first_line_pos = start_byte_pos + 1;", "let first_line_pos = start_byte_pos + 2;"))
+rmut("rf-rem-4+squash-start-only", "rem-4", "C17", "C17.R4", (RM, "range.contains(&pending_range.start) && range.contains(&pending_range.end);", "range.contains(&pending_range.start);"))
+rmut("rf-rem-4+tail-dropped", "rem-4", "C17", "C17.R2", (RM, "        merged_ranges.extend(pending_markers.map(|pending| (pending, false)));\n", ""))
+rmut("rf-rem-4+tail-skips-one", "rem-4", "C17", "C17.R2", (RM, "merged_ranges.extend(pending_markers.map(|pending| (pending, false)));", "merged_ranges.extend(pending_markers.skip(1).map(|pending| (pending, false)));"))
+rmut("rf-rem-4+single-advance", "rem-4", "C17", "C17.R2", (RM, "while let Some(pending) =", "if let Some(pending) ="))
+rmut("rf-rem-1+update-before-push", "rem-1", "C01", "C01.OB", (RM, "        positions.push((marker.start - removed_len, *pair_pos));\n        removed_len += marker.end - marker.start;\n", "        removed_len += marker.end - marker.start;\n        positions.push((marker.start - removed_len, *pair_pos));\n"))
+rmut("rf-rem-3+pending-when-not-collecting", "rem-3", "C17", "C17.R1", (RM, "if !is_removal && !collect_pending_removals {", "if !is_removal && collect_pending_removals {"))
+rmut("rf-rem-3+skip-ignored", "rem-3", "C03", "C03.R1-3", (RM, "        if is_skip(&el.start_element) {\n            return None;\n        }\n\n        let evaluator", "        let evaluator"))
+rmut("rf-rem-3+empty-kept", "rem-3", "C04", "C04.R1", (RM, "            .filter(|(range, _)| !range.is_empty())\n", ""))
+rmut("rf-lst-4+colour-pads", "lst-4", "C16", "C16.R2", (LS, "    out.push_str(color);\n", "    out.push_str(&color.repeat(space_len));\n"))
+rmut("rf-eva-2+strict", "eva-2", "C05", "C05.R1", (TL, "Ok(expires) => self.current_time >= expires,", "Ok(expires) => self.current_time > expires,"))
+rmut("rf-eva-2+offset-dropped", "eva-2", "C05", "C05.R2", (TL, 'let expires_str = format!("{} {}", expires_value, self.time_offset);', 'let expires_str = format!("{} +00:00", expires_value);'))
+rmut("rf-cli-3+create-before-read", "cli-3", "C20", "C20.R", (CLI, "    let content = read_input(args.filename);\n", "    let _early = args.output.as_ref().map(|f| File::create(f).expect(\"Failed to create file\"));\n    let content = read_input(args.filename);\n"))
+rmut("rf-cli-4+println", "cli-4", "C20", "C20.R4", (CLI, 'None => print!("{}", output),', 'None => println!("{}", output),'))
+
+rmut("rf-tok-3+unit-mix", "tok-3", "C07", "C07.R3", (TK, "                    start: start_pos,\n                    byte_start: byte_start_pos,\n                    end: current,\n                    byte_end: byte_pos,", "                    start: byte_start_pos,\n                    byte_start: byte_start_pos,\n                    end: current,\n                    byte_end: byte_pos,"))
+rmut("rf-tok-3+counter-by-two", "tok-3", "C07", "C07.R", (TK, "        current += 1;\n", "        current += 2;\n"))
+rmut("rf-tok-3+byte-start-plus-one", "tok-3", "C01", "C01.OB", (TK, "            byte_start_pos = byte_pos;\n", "            byte_start_pos = byte_pos + 1;\n"))
+rmut("rf-tok-3+state-not-reset", "tok-3", "C08", "C08.R", (TK, "    let mut state = State::Text;", "    let mut state = State::InDelimiter;"))
+rmut("rf-tok-1+final-end-off", "tok-1", "C07", "C07.R", (TK, "            end: current,\n            byte_end: source.len(),", "            end: current,\n            byte_end: source.len() - 1,"))
+rmut("rf-par-4+closing-by-prefix", "par-4", "C10", "C10.R", (PA, ".any(|parent_el| parent_el.name == pair_name)", ".any(|parent_el| parent_el.name.starts_with(pair_name))"))
+rmut("rf-par-4+mismatch-accepted", "par-4", "C10", "C10.R", (PA, "Some((end_token, end_el)) if el.name == end_el.name.trim_start_matches(\"/\") => {", "Some((end_token, end_el)) if el.name.len() == end_el.name.trim_start_matches(\"/\").len() => {"))
+
 with open(os.path.join(os.path.dirname(os.path.abspath(__file__)), "mutants.json"), "w") as f:
     json.dump(C, f, indent=1)
 print(len(C), "variants")
